@@ -250,6 +250,42 @@ def _is_reuse(case) -> bool:
 REQUIRES = {"reused-operation-object": _is_reuse}
 
 
+def check_replaced(case) -> list[Fail]:
+    """The types a HUGR reports for the ports of a node are those of the operation the node holds now: an
+    operation is added and asked about its ports, deleted, and another one lands on the same index."""
+    import hugr.ops as hops
+    import hugr.tys as tys
+    from hugr.hugr import Hugr
+    from hugr.hugr.node_port import InPort, OutPort
+
+    h = Hugr(hops.DFG([], []))
+    idxs = []
+    for op in (case["op1"], case["op2"]):
+        s_ = ref.ref_sig(op)
+        nd = h.add_node(mk_op(op), h.root)
+        idxs.append(nd.idx)
+        fails = []
+        for P, row, what in ((OutPort, s_["outs"] or [], "out"), (InPort, s_["ins"] or [], "in")):
+            for i, t in enumerate(row):
+                try:
+                    ty = h.port_type(P(nd, i))
+                    kd = h.port_kind(P(nd, i))
+                    # (for input ports of operations that are not DataflowOps no type is reported: only outputs must have one)
+                    ok = isinstance(kd, tys.ValueKind) and dump(kd.ty._to_serial_root()) == ref.enc_type(t) and ((ty is None and P is InPort) or (ty is not None and dump(ty._to_serial_root()) == ref.enc_type(t)))
+                    msg = f"type={ty!r} kind={kd!r}"
+                except Exception as e:  # noqa: BLE001
+                    ok, msg = False, f"raises {type(e).__name__}: {e}"
+                if not ok:
+                    fails.append(Fail("hugr.port_type", f"after-replacement:{op['k']}:{what}", f"{what} {i}: {msg}"[:300]))
+        if op is case["op1"]:
+            if fails:
+                return fails  # already wrong for a fresh node: the other sub-checks' business
+            h.delete_node(nd)
+    if idxs[0] != idxs[1]:
+        raise InvalidCase("index not reused")
+    return fails[:4]
+
+
 def check_declared(case) -> list[Fail]:
     """A function with declared outputs keeps reporting them (signature of the definition, kind of its
     function port, instantiation of a recursive call) when set_outputs is refused for other wires."""
@@ -313,6 +349,8 @@ def classes(case):
 
 
 SUBS = [
+    Sub("replaced-nodes", check_replaced, strategy=lambda tier: st.tuples(asts.op_asts(2, kinds=["Custom", "Tag", "MakeTuple", "UnpackTuple", "Noop", "LoadConst", "Call", "DivMod", "Not"]), asts.op_asts(2, kinds=["Custom", "Tag", "MakeTuple", "UnpackTuple", "Noop", "LoadConst", "Call", "DivMod", "Not"])).map(lambda t: {"op1": t[0], "op2": t[1]}),
+        nontrivial=lambda c: c["op1"] != c["op2"], classes=lambda c: [c["op2"]["k"]], n_quick=200, n_thorough=1500),
     Sub("declared-functions", check_declared, strategy=lambda tier: st.fixed_dictionaries({"ins": st.lists(asts.types(1), max_size=3), "decl": st.lists(asts.types(1), max_size=3), "call": st.booleans()}),
         nontrivial=lambda c: bool(c["decl"]), classes=lambda c: ["recursive-call"] if c["call"] else ["no-call"], n_quick=200, n_thorough=1500),
     Sub("reused-partial-ops", check_reused, strategy=reused_strategy, nontrivial=lambda c: True, classes=lambda c: [c["op"]["k"]], n_quick=200, n_thorough=1500),
